@@ -233,7 +233,12 @@ func (m *Machine) exec(f *frame, in *instr) {
 		}()
 		e.run(in)
 		if !e.child {
-			e.pay(e.deferred)
+			before := f.runLimit
+			if !e.m.charge(f, e.deferred) {
+				// the stacks already show the result; what could not be paid is not a deposit
+				f.unpaid = e.deferred - before
+				e.fail(RunLimit)
+			}
 		}
 	}()
 	m.prevOp, m.prevExec, m.prevCons = in.op, true, e.consumed
